@@ -84,6 +84,12 @@ def gen_description(rng, force=None, max_images=None, type_cycle=None, hostile=T
         comp["id"] = "Fedora-22-%s%s.%d" % (comp["date"], domains.COMPOSE_TYPE_SUFFIX[comp["type"]], comp["respin"] % 1000)
     variants = rng.sample(VARIANT_POOL, rng.randint(1, 4))
     arches = rng.sample(ARCH_POOL, rng.randint(1, 4))
+    if force == "arches-whole-table":
+        # every documented binary architecture is a legal cell key (also the rare ones: amd64, arm64, sparc64v, ...)
+        variants = variants[:1]
+        arches = list(domains.BINARY_ARCHES)
+    elif rng.random() < 0.1:
+        arches = rng.sample(domains.BINARY_ARCHES, rng.randint(2, 6))
     cells = [(v, a) for v in variants for a in arches]
     images = []
     ident = {}
@@ -94,6 +100,8 @@ def gen_description(rng, force=None, max_images=None, type_cycle=None, hostile=T
     if force == "many-per-cell":
         n = rng.randint(8, 16)
         cells = cells[:2]
+    if force == "arches-whole-table":
+        n = len(cells)
     near = []
     if force == "near-equal-paths" or rng.random() < 0.08:
         # paths of ONE cell that differ only in zero padding / case / a separator: every sort key that is coarser than the
@@ -156,6 +164,10 @@ def gen_description(rng, force=None, max_images=None, type_cycle=None, hostile=T
             free = [c for c in cells if a["path"] not in used_paths.get(c, ())]
             if free:
                 mycells = rng.sample(free, min(len(free), k))
+        if force == "arches-whole-table":
+            mycells = [cells[i]]
+        if force == "identity-equal-same-checksums" and i == 1 and images:
+            mycells = [tuple(images[0]["cells"][0])]      # ... in ONE cell (an ISO and its '-latest' alias)
         # distinct paths per cell
         for _ in range(20):
             if any(a["path"] in used_paths.get(c, ()) for c in mycells):
@@ -171,6 +183,8 @@ def gen_description(rng, force=None, max_images=None, type_cycle=None, hostile=T
 def classes_of(D):
     out = set()
     cells = {}
+    if len(set(c[1] for im in D["images"] for c in im["cells"])) >= len(domains.BINARY_ARCHES):
+        out.add("arches-whole-table")
     for im in D["images"]:
         a = im["attrs"]
         out.add("type-" + a["type"])
